@@ -6,9 +6,12 @@
           2 = C07 oracle: a victim (or the asker) is not eligible / announced more or less than once
           3 = C08 oracle: guarantee, coverage, "nothing happens otherwise", quota bounds
           5 = the implementation panicked or the world could not be built
-          6 = the generated world is not well formed (harness problem) *)
+          6 = the generated world is not well formed (harness problem)
+          900.. = coverage counters (class info: the first component is a COUNT, not a case index), computed with the
+                  model on the generated cases: how often the additional-victims pass is entered / adds a victim, which
+                  branches of setPreemptionTime / tryAcquirePreemption / IncAllocatedResource the histories reach *)
 From Coq Require Import List ZArith NArith Bool.
-From YK Require Import Base.Int64 Base.Res Preempt.Snapshot Preempt.Victims Preempt.ReqNode Preempt.Quota Preempt.Spec.
+From YK Require Import Base.Int64 Base.Res Preempt.Snapshot Preempt.Victims Preempt.ReqNode Preempt.Quota Preempt.Timing Preempt.Spec.
 Import ListNotations.
 Open Scope Z_scope.
 
@@ -163,7 +166,9 @@ Inductive qop :=
 | QReconf (q : N) (mx gr : ores) (delay : Z)
 | QAdvance (d : Z)
 | QUsage (q : N) (r : ores) (enabled : bool)
-| QTrigger (q : N) (whole : bool).
+| QTrigger (q : N) (whole : bool)
+| QHold (q : N)       (* tryAcquirePreemption without running the preemptor and without finishing *)
+| QDone (q : N).      (* setQuotaPreemptionState(false) *)
 Record lobs := mkLObs { lb_queue : N; lb_pre : ores; lb_sorted : list N; lb_claimed : ores }.
 (* observed times: delay, start relative to now, running *)
 Definition otimes := list (N * (Z * option Z * bool)).
@@ -273,6 +278,14 @@ Definition quota_step_model (st : ustate) (op : qop) (o : qsobs) : ustate * bool
                                else it) (us_t st) in
       (mkUS (with_queues w qs) ts (us_now st), true, true)
   | QTrigger qid whole => trigger_step st qid whole o
+  | QHold qid =>
+      match find_queue (w_queues w) qid with
+      | None => (st, false, true)
+      | Some q =>
+          let '(acq, t1) := tryAcquire (us_now st) q (time_get (us_t st) qid) in
+          (mkUS w (time_set (us_t st) qid t1) (us_now st), Bool.eqb acq (so_acquired o) && negb (so_crash o), true)
+      end
+  | QDone qid => (mkUS w (time_set (us_t st) qid (quotaDone (time_get (us_t st) qid))) (us_now st), negb (so_crash o), true)
   end.
 
 (* C07 on a quota step: victims are bound, not released, not preempted before, no required node; announced once *)
@@ -323,12 +336,202 @@ Fixpoint quota_run (st : ustate) (steps : list (qop * qsobs)) : list N :=
       (if corr then quota_run st' rest else [])
   end.
 
+(* ---- the timing clause of C08 evaluated on observations only (independent of the model run above, so that it keeps
+   judging after a correspondence failure): the queues as configured/observed, the start times the implementation
+   shows after every step, and the ghost arming time maintained with arm_upd (Preempt/Timing.v) ---- *)
+Record otstate := mkOTS { ot_qs : list queue; ot_t : times; ot_now : Z; ot_arm : list (N * option Z) }.
+Fixpoint arm_get (l : list (N * option Z)) (id : N) : option Z :=
+  match l with [] => None | (i, a) :: r => if N.eqb i id then a else arm_get r id end.
+Definition obs_queues (qs : list queue) (op : qop) (o : qsobs) : list queue :=
+  let qs1 := match op with QReconf qid mx gr _ => upd_queue (set_limits mx gr) qid qs | _ => qs end in
+  map (fun q => set_alloc (snap_get (so_alloc o) (q_id q)) q) qs1.
+Definition acted (o : qsobs) : bool :=
+  so_acquired o || negb (match so_marked o ++ concat (so_announced o) with [] => true | _ => false end).
+(* quota preemption acts only for a managed queue above its maximum that is not running, whose start time is armed and
+   reached, with a delay configured (0 switches the feature off for the queue), and only when the delay in force has
+   elapsed since the change that armed it (Props/C08.v: only_managed_enabled_elapsed, acquired_only_after_delay) *)
+Definition time_ok_step (st : otstate) (op : qop) (o : qsobs) : bool :=
+  let chk := fun qid =>
+    if acted o then
+      match find_queue (ot_qs st) qid with
+      | Some q => let t := time_get (ot_t st) qid in
+                  quota_may_run (ot_now st) q t && negb (qt_delay t =? 0) &&
+                  delay_elapsed (arm_get (ot_arm st) qid) (qt_delay t) (ot_now st)
+      | None => false
+      end
+    else true in
+  match op with
+  | QTrigger qid _ => chk qid
+  | QHold qid => chk qid
+  | _ => true
+  end.
+Definition time_next (st : otstate) (op : qop) (o : qsobs) : otstate :=
+  let now' := match op with QAdvance d => ot_now st + d | _ => ot_now st end in
+  let t' := times_of now' (so_times o) in
+  mkOTS (obs_queues (ot_qs st) op o) t' now'
+        (map (fun it => (fst it, arm_upd now' (qt_start (time_get (ot_t st) (fst it))) (qt_start (snd it)) (arm_get (ot_arm st) (fst it)))) t').
+Fixpoint quota_time_run (st : otstate) (steps : list (qop * qsobs)) : list N :=
+  match steps with
+  | [] => []
+  | (op, o) :: rest => kind (time_ok_step st op o) 3 ++ quota_time_run (time_next st op o) rest
+  end.
+
 Fixpoint dedupN (l : list N) : list N :=
   match l with [] => [] | x :: t => if existsb (N.eqb x) t then dedupN t else x :: dedupN t end.
 Definition quota_check1 (c : quota_case) : list N :=
   match c with
   | UCCrash => [5%N]
   | UC w t0 steps =>
-      if negb (wf_world w) then [6%N] else dedupN (quota_run (mkUS w (times_of 0 t0) 0) steps)
+      if negb (wf_world w) then [6%N] else
+      dedupN (quota_run (mkUS w (times_of 0 t0) 0) steps ++ quota_time_run (mkOTS (w_queues w) (times_of 0 t0) 0 []) steps)
   end.
 Definition quota_check (cs : list quota_case) : list (N * N) := tagP 200000 (indexedP 0 (map quota_check1 cs)).
+
+(* ---------------- coverage counters (class info) ---------------- *)
+Definition is_nil {A} (l : list A) : bool := match l with [] => true | _ => false end.
+(* the additional-victims pass with a trace: 0 victim kept, 1 rejected by the queue test, 2 break (the ask queue cannot
+   absorb the victim), 3 put back (no effect on the ask queue) *)
+Definition add_step_tr (w : world) (st : apass * list N) (v : alloc) : apass * list N :=
+  let s := fst st in
+  if ap_stop s then st else
+  let code :=
+    let '(ok, sn1) := victim_check w (ap_sn s) v in
+    if ok then
+      if fits_ask_queue w sn1 v then
+        if negb (EqualsOrEmpty (remainingOf w sn1 (ask_qid w)) (remainingOf w (AddAllocation w sn1 (ask_qid w) (a_res v)) (ask_qid w))) then 0%N else 3%N
+      else 2%N
+    else 1%N in
+  (add_step w s v, snd st ++ [code]).
+Definition add_trace (w : world) (pv : pvs) (nodeVictims : list alloc) : list N :=
+  let sn := fold_left (fun sn v => RemoveAllocation w sn (a_queue v) (a_res v)) nodeVictims (Duplicate (init_snaps w)) in
+  let seen := map a_key nodeVictims in
+  let potential := sort_by lessA (filter (fun v => negb (existsb (N.eqb (a_key v)) seen)) (flat_pv pv)) in
+  snd (fold_left (add_step_tr w) potential (mkAP sn [] false, [])).
+(* the second pass of calculateVictimsByNode rejects a candidate of the first pass on some usable node *)
+Definition second_pass_rejects (w : world) (pv : pvs) : bool :=
+  existsb (fun n =>
+             if FitIn (n_avail n) (ask_res w) then false else
+             let fp := fold_left (first_step w) (by_node pv (n_id n)) (mkFP (Duplicate (init_snaps w)) (n_avail n) [] [] false) in
+             let head := fp_head fp ++ fp_tail fp in
+             negb (Nat.eqb (length head) (length (sp_res (second_pass w (n_avail n) head))))) (usable_nodes w).
+(* entered, a victim added, an added victim committed, second pass rejection, pass rejection / break / put back, final
+   ask-queue check of the pass failed *)
+Definition add_info1 (c : queue_case) : list bool :=
+  let none := [false; false; false; false; false; false; false; false] in
+  match c with
+  | QCCrash => none
+  | QC w o =>
+      if negb (wf_world w) || negb (ob_pre o) then none else
+      match ob_find o with
+      | None => none
+      | Some _ =>
+          let pv := obs_pv w o in
+          if negb (checkGuarantees w pv) then none else
+          let cs := filter (fun c => fst (answer w c)) (node_checks w pv) in
+          let sc := fun c => solutionScore pv c (snd (answer w c)) in
+          let m := zmin_list (map sc cs) scoreUnfit in
+          let best := filter (fun c => sc c =? m) cs in
+          let best := match ob_try o with
+                      | Some t => if o_ok t then filter (fun c => N.eqb (pc_node c) (o_node t)) best else best
+                      | None => best end in
+          let runs := flat_map (fun c => let idx := snd (answer w c) in
+                                         if Z.of_nat (length (pc_victims c)) <=? idx then [] else
+                                         let nv := firstn (Z.to_nat (idx + 1)) (pc_victims c) in
+                                         [(additionalVictims w pv nv, add_trace w pv nv)]) best in
+          let has := fun code => existsb (fun r => existsb (N.eqb code) (snd r)) runs in
+          [negb (is_nil runs);
+           existsb (fun r => negb (is_nil (fst (fst r)))) runs;
+           existsb (fun r => existsb (fun v => existsb (N.eqb (a_key v)) (o_victims (obs_outcome o))) (fst (fst r))) runs;
+           second_pass_rejects w pv; has 1%N; has 2%N; has 3%N;
+           existsb (fun r => negb (snd (fst r))) runs]
+      end
+  end.
+Fixpoint select {A} (flags : list bool) (l : list A) (want : bool) : list A :=
+  match flags, l with
+  | f :: fs, x :: xs => if Bool.eqb f want then x :: select fs xs want else select fs xs want
+  | [], xs => if want then [] else xs
+  | _, [] => []
+  end.
+Definition count_col (rows : list (list bool)) (i : nat) : N :=
+  N.of_nat (length (filter (fun r => nth i r false) rows)).
+Definition info_rows (base : N) (rows : list (list bool)) : list (N * N) :=
+  (N.of_nat (length rows), base) ::
+  map (fun i => (count_col rows i, (base + 1 + N.of_nat i)%N)) (seq 0 8).
+(* 900.. the general queue streams, 910.. the stream "extra" *)
+Definition queue_info (extra : list bool) (cs : list queue_case) : list (N * N) :=
+  info_rows 900 (map add_info1 (select extra cs false)) ++ info_rows 910 (map add_info1 (select extra cs true)).
+
+(* which branch of setPreemptionTime a reload takes (offsets from 920, see lib/engines/preempt.py) *)
+Definition spt_branch (now : Z) (q : queue) (oldMax : ores) (oldDelay : Z) (t : qtime) : N :=
+  if qt_running t then 0 else
+  if qt_delay t =? 0 then 1 else
+  if IsZero (q_max q) then 2 else
+  if StrictlyGreaterThanOrEqualsOnlyExisting (q_max q) (q_alloc q) then 3 else
+  let armed := fun base : N =>
+    if oldDelay <? qt_delay t then base else if qt_delay t <? oldDelay then (base + 1)%N else (base + 2)%N in
+  if Equals oldMax (q_max q) then
+    match qt_start t with
+    | None => if (oldDelay =? 0) && (0 <? qt_delay t) then 4 else 5
+    | Some _ => armed 6%N
+    end
+  else if StrictlyGreaterThan oldMax (q_max q) then
+    match qt_start t with None => 9 | Some _ => armed 10%N end
+  else if StrictlyGreaterThan (q_max q) oldMax then
+    match qt_start t with None => 13 | Some _ => armed 14%N end
+  else match qt_start t with None => 17 | Some _ => armed 18%N end.
+(* tryAcquirePreemption: 0 unmanaged, 1 running, 2 usage within the max, 3 not armed, 4 too early, 5 acquired *)
+Definition acq_branch (now : Z) (q : queue) (t : qtime) : N :=
+  if negb (q_managed q) then 0 else if qt_running t then 1 else
+  if StrictlyGreaterThanOrEqualsOnlyExisting (q_max q) (q_alloc q) then 2 else
+  match qt_start t with None => 3 | Some s => if now <? s then 4 else 5 end.
+(* the re-arming in IncAllocatedResource: 0 armed, 1 feature off, 2 already armed, 3 unmanaged, 4 delay zero, 5 max unset, 6 within the max *)
+Definition inc_branch (enabled : bool) (q : queue) (t : qtime) : N :=
+  if negb enabled then 1 else
+  match qt_start t with Some _ => 2 | None =>
+    if negb (q_managed q) then 3 else if qt_delay t =? 0 then 4 else if IsZero (q_max q) then 5 else
+    if StrictlyGreaterThanOrEqualsOnlyExisting (q_max q) (q_alloc q) then 6 else 0
+  end.
+Definition step_codes (st : ustate) (op : qop) : list N :=
+  let w := us_w st in
+  let acq := fun qid =>
+    match find_queue (w_queues w) qid with
+    | None => []
+    | Some q => let t := time_get (us_t st) qid in
+                (945 + acq_branch (us_now st) q t)%N ::
+                match qt_start t with
+                | Some s => if s - us_now st =? 1000 then [951%N] else if s =? us_now st then [952%N] else []
+                | None => []
+                end
+    end in
+  match op with
+  | QReconf qid mx gr delay =>
+      match find_queue (w_queues w) qid with
+      | None => []
+      | Some q => let t := time_get (us_t st) qid in
+                  [(920 + spt_branch (us_now st) (set_limits mx gr q) (q_max q) (qt_delay t) (mkQT delay (qt_start t) (qt_running t)))%N]
+      end
+  | QUsage qid r enabled =>
+      flat_map (fun q => [(955 + inc_branch enabled (set_alloc (Some (Add (q_alloc q) r)) q) (time_get (us_t st) (q_id q)))%N]) (chain w qid)
+  | QTrigger qid _ => acq qid
+  | QHold qid => acq qid
+  | _ => []
+  end.
+Fixpoint quota_cov (st : ustate) (steps : list (qop * qsobs)) : list N :=
+  match steps with
+  | [] => []
+  | (op, o) :: rest =>
+      let '(st', ok, _) := quota_step_model st op o in
+      step_codes st op ++ (if ok && times_agree (us_now st') (us_t st') (so_times o) then quota_cov st' rest else [])
+  end.
+Definition quota_cov1 (c : quota_case) : list N :=
+  match c with
+  | UCCrash => []
+  | UC w t0 steps => if negb (wf_world w) then [] else quota_cov (mkUS w (times_of 0 t0) 0) steps
+  end.
+Definition count_code (codes : list N) (k : N) : N := N.of_nat (length (filter (N.eqb k) codes)).
+(* 919 = histories of the stream "qtime"; the branch counters are taken over that stream only *)
+Definition cov_codes : list N := map N.of_nat (seq 920 21 ++ seq 945 8 ++ seq 955 7).
+Definition quota_info (qtime : list bool) (cs : list quota_case) : list (N * N) :=
+  let sel := select qtime cs true in
+  let codes := flat_map quota_cov1 sel in
+  (N.of_nat (length sel), 919%N) :: map (fun k => (count_code codes k, k)) cov_codes.
